@@ -113,6 +113,12 @@ class NetworkService(ModelElement):
                         self.topo.graph_model.remove_ns_with_cps_and_links(node_id=self.node_id)
                         # re-throw the exception
                         raise TopologyException(str(e))
+                    except Exception:
+                        # any other failure (e.g. a stale interface object) must not leave a partial service behind
+                        for ii in connected_interfaces:
+                            self.disconnect_interface(ii)
+                        self.topo.graph_model.remove_ns_with_cps_and_links(node_id=self.node_id)
+                        raise
         else:
             assert node_id is not None
             super().__init__(name=name, node_id=node_id, topo=topo)
